@@ -17,7 +17,8 @@ from ..core import AnalysisError, const_value, walk_own
 from .c05 import subset_test
 from ..defuse import DefUse, Terms, show, specialise, walk_term
 from ..inline import inline_nested_closures
-from ..tutil import TTUnknown, np_call, tt_eval
+from ..tutil import (EvUnknown, TTUnknown, ev_term, items_as_subs, np_call,
+                     tt_eval)
 
 EXPLANATION = (
     "Static analysis of parsers.pin.read_percolator / "
@@ -115,6 +116,9 @@ def _identifier_chunks(ctx, f):
                 "param", p_cs) and b.get("data") == (
                 "bin", "+", ("param", p_data), ("param", p_id)):
             return "together"
+        if t[0] == "mut" and t[2] == "append" and t[3] == (
+                ("param", p_id),):
+            t = ("bin", "+", t[1], ("list", (("param", p_id),)))
         if t[0] == "bin" and t[1] == "+" and t[3] == (
                 "list", (("param", p_id),)):
             b = bound_args(prog, t[2])
@@ -345,22 +349,68 @@ def _helpers(ctx):
                                  "unique": "True",
                                  "ignore_case": "col is None"},
     }
-    for name, exp in want.items():
+    from ..astutil import CondUnknown, eval_cond
+    for name in want:
         f = prog.func(HLP + name)
+        fcfg = CFG(f.node)
         calls = [n for n in ast.walk(f.node) if isinstance(n, ast.Call)
                  and ast.unparse(n.func) == "find_column"]
-        ctx.require(len(calls) == 1, f"{f.qual}: find_column call missing")
-        b = prog.bind(fc, calls[0])
-        got = {k: ast.unparse(b[k]) for k in exp if k in b}
-        ctx.check(got == exp, "C10c-lookup-wrappers", f,
-                  f"{name} -> find_column({exp})", f"got {got}",
+        ctx.require(calls, f"{f.qual}: find_column call missing")
+        p_c = f.params[0]
+        p_def = f.params[2] if len(f.params) > 2 else None
+        vals = (None, "Name", "") if name == "find_optional_column" \
+            else ("Name",)
+        bad = []
+        for val in vals:
+            env = {p_c: val}
+            if p_def:
+                env[p_def] = "dflt"
+            hit = []
+            for c in calls:
+                try:
+                    if all(bool(eval_cond(t, env)) == o
+                           for t, o in fcfg.necessary_conditions(c)):
+                        hit.append(c)
+                except (CondUnknown, KeyError):
+                    hit.append(c)
+            if len(hit) != 1:
+                bad.append((val, f"{len(hit)} calls"))
+                continue
+            b = prog.bind(fc, hit[0])
+            got = {}
+            fT = Terms(DefUse(prog, f))
+
+            def atoms(t, env=env):
+                if t[0] == "param" and t[1] in env:
+                    return env[t[1]]
+                raise KeyError(t)
+            try:
+                for k in ("col", "required", "unique", "ignore_case"):
+                    if k in b:
+                        got[k] = ev_term(fT.of(b[k]), atoms)
+                    else:
+                        got[k] = const_value(fc.defaults().get(k))
+            except (EvUnknown, KeyError) as e:
+                bad.append((val, f"cannot evaluate {str(e)[:60]}"))
+                continue
+            if name == "find_required_column":
+                exp = {"col": val, "required": True, "unique": True,
+                       "ignore_case": True}
+            elif name == "find_columns":
+                exp = {"col": val, "required": False, "unique": False,
+                       "ignore_case": True}
+            else:
+                exp = {"col": val or "dflt", "required": val is not None,
+                       "unique": True, "ignore_case": val is None}
+            got = {k: (bool(v) if k != "col" else v) for k, v in got.items()}
+            if got != exp:
+                bad.append((val, got))
+        ctx.check(not bad, "C10c-lookup-wrappers", f,
+                  f"{name} -> find_column with the documented name, "
+                  "required / unique / ignore_case flags "
+                  f"({len(vals)} valuations of the requested name)",
+                  f"(requested name, what find_column receives): {bad}",
                   node=calls[0])
-        first = ast.unparse(b["col"]) if "col" in b else None
-        okc = first == ("col or default" if name == "find_optional_column"
-                        else "col")
-        ctx.check(okc, "C10c-lookup-wrappers", f,
-                  f"{name} searches for the requested name",
-                  f"searches for {first}", node=calls[0])
     # find_column itself: one specialised copy per value of ignore_case (the
     # flag may pick one of two nested comparison functions, or sit inside
     # conditional expressions - both are resolved before terms are built)
@@ -450,6 +500,8 @@ def _helpers(ctx):
                                 else ("const", None)
                         else:
                             exp = FOUND
+                        if res is not None:
+                            res = items_as_subs(res)
                         if res != exp:
                             bad.append(("result", r, u, n,
                                         show(res, 60) if res else None))
